@@ -409,7 +409,7 @@ func oracleC10(m *gensim.MethodMeta, fr *rtFuncReport, twin *rtFuncReport, st *S
 
 var reDiag = regexp.MustCompile(`(?m)^(?:\./)?conv/([\w.]+\.go):(\d+):(\d+): (.*)$`)
 
-var capableNames = []string{"cA", "cD", "CD", "cLE", "G", "cNX", "cE1", "cC", "cR", "cP", "cW", "GetY", "GetB", "GetV", "Get", "SubN"}
+var capableNames = []string{"cA", "cD", "CD", "cLE", "cLI", "G", "cNX", "cE1", "cC", "cR", "cP", "cW", "GetY", "GetB", "GetV", "Get", "SubN"}
 
 // attributeDiagnostics maps compiler diagnostics in the generated file onto
 // C07 / C10 narrowly; everything else is a note.
@@ -561,16 +561,44 @@ func execGen(env *sim.Env, c GenCase, prop string) CaseResult {
 	if strings.HasPrefix(c.Meta.Kind, "misfit:") {
 		st.Inc("n:misfit_hooks_tried")
 		st.Seen("nontrivial", c.Meta.Kind+"|"+methodShape(&c.Meta.Methods[0]))
-		if r.Obs.Status == "exit:0" {
-			mm := c.Meta.Methods[0]
-			d, _ := json.Marshal(map[string]any{"notations": mm.Notes, "method": mm.Name, "shape": methodShape(&mm)})
-			keep([]*Violation{{Property: "C10", Invariant: "C10/misfit-rejected", Sig: map[string]string{"misfit": strings.TrimPrefix(c.Meta.Kind, "misfit:")},
-				Summary: fmt.Sprintf("a hook whose shape cannot fit the method (%s) was accepted (exit 0)", c.Meta.Kind), Detail: string(d)}})
-		} else {
-			st.Inc("n:misfit_hooks_rejected")
-		}
+		mk := strings.TrimPrefix(c.Meta.Kind, "misfit:")
+		mm := c.Meta.Methods[0]
+		d, _ := json.Marshal(map[string]any{"notations": mm.Notes, "method": mm.Name, "shape": methodShape(&mm)})
 		if len(st.Samples) == 0 {
-			st.Samples = append(st.Samples, map[string]any{"kind": c.Meta.Kind, "notations": c.Meta.Methods[0].Notes, "status": r.Obs.Status})
+			st.Samples = append(st.Samples, map[string]any{"kind": c.Meta.Kind, "notations": mm.Notes, "status": r.Obs.Status})
+		}
+		if r.Obs.Status != "exit:0" {
+			st.Inc("n:misfit_hooks_rejected")
+			return res
+		}
+		// A hook whose single result is a concrete type implementing error does not
+		// fit the method as the tool stands. Should the tool ever learn to accept
+		// such hooks, "fits" has to mean that it behaves: the succeeding hook returns
+		// a nil value of its type, and the generated function must then carry on and
+		// return a nil error. So for these kinds acceptance alone is no verdict: the
+		// world is built and run.
+		if mk != "concrete-error-result" && mk != "slice-error-result" {
+			keep([]*Violation{{Property: "C10", Invariant: "C10/misfit-rejected", Sig: map[string]string{"misfit": mk},
+				Summary: fmt.Sprintf("a hook whose shape cannot fit the method (%s) was accepted (exit 0)", c.Meta.Kind), Detail: string(d)}})
+			return res
+		}
+		st.Inc("n:misfit_hooks_accepted_and_run")
+		mod := filepath.Join(root, "mod")
+		drv := filepath.Join(filepath.Dir(root), "driver")
+		if _, berr, err := runTool(mod, 5*time.Minute, "go", "build", "-o", drv, "./cmd/driver"); err != nil {
+			keep([]*Violation{{Property: "C10", Invariant: "C10/misfit-rejected", Sig: map[string]string{"misfit": mk, "how": "accepted-and-does-not-compile"},
+				Summary: fmt.Sprintf("a hook returning a concrete error type (%s) was accepted and the output does not compile: %s", mk, clip([]byte(sim.Unsubst(berr, root)), 300)), Detail: string(d)}})
+			return res
+		}
+		so, serr, err := runTool(mod, 2*time.Minute, drv)
+		var reports []rtFuncReport
+		if err != nil || json.Unmarshal([]byte(so), &reports) != nil || len(reports) == 0 || len(reports[0].Results) == 0 {
+			st.Note("misfit world accepted but its driver failed: %v %s", err, clip([]byte(serr), 200))
+			return res
+		}
+		if b := reports[0].Results[0]; b.Err != "nil" || b.Panic != "" {
+			keep([]*Violation{{Property: "C10", Invariant: "C10/misfit-rejected", Sig: map[string]string{"misfit": mk, "how": "accepted-and-misbehaves"},
+				Summary: fmt.Sprintf("a hook returning a concrete error type (%s) was accepted, and although the hook succeeds (returns a nil value of its type) the generated function returns %s %s", mk, b.Err, b.Panic), Detail: string(d)}})
 		}
 		return res
 	}
@@ -760,7 +788,7 @@ func runGen(cfg Config, args []string, prop string) int {
 	// systematically: every misfit kind x {0,1,2 additional arguments}, repeated
 	nMisfit := 0
 	if prop == "C10" {
-		nMisfit = cfg.N(60, 600)
+		nMisfit = cfg.N(63, 630)
 	}
 	b := &Batch[GenCase]{Property: prop, Level: level, Cfg: cfg, Env: env, N: n + nMisfit,
 		Gen: func(i int) GenCase {
